@@ -81,6 +81,7 @@ func claimedProps(path string) string {
 func main() {
 	repo := flag.String("repo", "/repo", "repository root")
 	prop := flag.String("prop", "all", "property id (or all)")
+	slow := flag.Int("slow", 0, "print the N slowest obligations")
 	only := flag.String("func", "", "verify only functions whose display name contains this string")
 	tier := flag.String("tier", "quick", "quick|thorough")
 	evidence := flag.String("evidence", "", "evidence file to write")
@@ -253,6 +254,27 @@ func main() {
 	}
 	failures.Store(0)
 	Discharge(em, rest, dir, *timeout, *workers, *keep != "")
+	// Second chance, so that a loaded machine does not turn a timeout into an alarm: obligations the solvers gave no
+	// answer for (timeout / unknown, never sat) are re-run a few at a time with three times the budget. On a tree
+	// where everything discharges this costs nothing; the number of retries is capped so that a broken function
+	// (many failing obligations) is still reported quickly.
+	var again []*Obligation
+	for _, o := range rest {
+		if o.Verdict == "UNDECIDED" && o.Kind != "cover" {
+			again = append(again, o)
+		}
+	}
+	if n := len(again); n > 0 && n <= 24 {
+		for _, o := range again {
+			failuresByFunc.Delete(o.Func)
+		}
+		Discharge(em, again, dir, *timeout*3, max(2, *workers/4), *keep != "")
+		for _, o := range again {
+			if o.Verdict == "DISCHARGED" {
+				o.Solver += " (retry)"
+			}
+		}
+	}
 	if *stability > 0 {
 		Stability(em, all, dir, *stability, *workers)
 	}
@@ -326,6 +348,13 @@ func main() {
 			for _, n := range r.Notes {
 				fmt.Printf("   note: %s\n", n)
 			}
+		}
+	}
+	if *slow > 0 {
+		srt := append([]*Obligation{}, all...)
+		sort.Slice(srt, func(i, j int) bool { return srt[i].Time > srt[j].Time })
+		for i := 0; i < *slow && i < len(srt); i++ {
+			fmt.Printf("  SLOW %.2fs %s %s (%s)\n", srt[i].Time, srt[i].Verdict, srt[i].Name, srt[i].Solver)
 		}
 	}
 	if *verbose {
